@@ -156,7 +156,22 @@ def gen(ctx):
             yield Case("BKD", "F:%s 1:%s 2:%s" % (fill, W.hx(cr + cr), W.hx(tail[:cut])), tags=("trunc",))
 
 
+_NO_NETLINK = set()
+
+
+def project(c, r):
+    """a sandbox without NETLINK_USERSOCK cannot run the BKDN cases: they are then skipped (counted in the histogram), not compared"""
+    if c.cmd == "BKDN":
+        if r == "NETLINK-UNAVAILABLE":
+            _NO_NETLINK.add(c.key())
+        if c.key() in _NO_NETLINK:
+            return "SKIPPED (no netlink sockets in this sandbox)"
+    return r
+
+
 def classify(c, r):
+    if c.cmd == "BKDN" and r == "NETLINK-UNAVAILABLE":
+        return ["netlink:unavailable-skipped"]
     parts = r.split(" | ")
     kinds = sorted(set(p.split(" ")[2] if p.count(" ") >= 2 else p for p in parts))
     return [c.tags[0] + ":yields=%d" % min(len(parts) - 1, 9), "kinds:" + "+".join(kinds)]
